@@ -39,17 +39,19 @@ func vFx(v interface{}) (int64, bool) {
 }
 
 type vC04Sys struct {
-	c         *vCtx
-	cfgS      string
-	idx       *RoaringMetadataIndex
-	live      map[uint32]int // id -> doc index
-	rem       map[uint32]bool
-	seen      map[string]bool // fields ever indexed in this history
-	nAdd      int
-	maxDocs   int
-	inRecheck bool
-	docs      []map[string]interface{} // document alphabet (nil = vC04Docs)
-	qs        []vC04Query
+	c          *vCtx
+	cfgS       string
+	idx        *RoaringMetadataIndex
+	live       map[uint32]int // id -> doc index
+	rem        map[uint32]bool
+	seen       map[string]bool // fields ever indexed in this history
+	nAdd       int
+	maxDocs    int
+	inRecheck  bool
+	noPrepared bool                     // lean mode: no prepared-search objects
+	reuse      int                      // > 0: re-add mode over ids 1..reuse (see Enabled)
+	docs       []map[string]interface{} // document alphabet (nil = vC04Docs)
+	qs         []vC04Query
 }
 
 type vC04Query struct {
@@ -72,6 +74,20 @@ func (s *vC04Sys) Reset() {
 
 func (s *vC04Sys) Enabled() []vOp {
 	var ops []vOp
+	if s.reuse > 0 {
+		// re-add mode: ids 1..reuse, an id that is not live may be added (again) with any
+		// document of the alphabet - successive VERSIONS of one id
+		for id := 1; id <= s.reuse; id++ {
+			if _, live := s.live[uint32(id)+vIDBase]; live {
+				ops = append(ops, vOp{K: "Remove", A: id, B: 0}, vOp{K: "Remove", A: id, B: 2})
+				continue
+			}
+			for di := range s.docs {
+				ops = append(ops, vOp{K: "Add", A: id, B: di})
+			}
+		}
+		return ops
+	}
 	if s.nAdd < s.maxDocs {
 		for di := range s.docs {
 			ops = append(ops, vOp{K: "Add", A: s.nAdd + 1, B: di})
@@ -95,9 +111,55 @@ func (s *vC04Sys) Enabled() []vOp {
 
 func (s *vC04Sys) Apply(op vOp, hist []vOp, check bool) {
 	h := func() []string { return vHistStrings(append(hist, op)) }
+	// prepared search objects: configured BEFORE the operation (one per single filter, as a
+	// plain filter and as a one-filter group), executed for the first time AFTER it - a
+	// search answers from the index as it is when Execute runs
+	var prep []MetadataSearch
+	var prepF []Filter
+	if check && !s.noPrepared {
+		for _, f := range vC04Singles() {
+			f := f
+			prep = append(prep, s.idx.NewSearch().WithFilters(f))
+			prepF = append(prepF, f)
+			if len(prepF)%5 == 0 {
+				prep = append(prep, s.idx.NewSearch().WithFilterGroups(&FilterGroup{Filters: []Filter{f}, Logic: AND}))
+				prepF = append(prepF, f)
+			}
+		}
+	}
+	defer func() {
+		for i, ps := range prep {
+			s.c.Evaluations++
+			set := func(ms MetadataSearch) (out map[uint32]bool, err error) {
+				defer func() {
+					if r := recover(); r != nil {
+						err = fmt.Errorf("panic: %v", r)
+					}
+				}()
+				res, err := ms.Execute()
+				if err != nil {
+					return nil, err
+				}
+				out = map[uint32]bool{}
+				for _, r := range res {
+					out[r.GetId()] = true
+				}
+				return out, nil
+			}
+			r1, e1 := set(ps)
+			r2, e2 := set(s.idx.NewSearch().WithFilters(prepF[i]))
+			if (e1 != nil) != (e2 != nil) {
+				s.c.Violation("prepared-search-stale", "error-differs", s.cfgS, h(), fmt.Sprintf("%s: a search object configured before the last operation returned err=%v, one configured after it err=%v", vFilterStr(prepF[i]), e1, e2))
+			} else if e1 == nil && !vSetEq(r1, r2) {
+				s.c.Violation("prepared-search-stale", "result-differs", s.cfgS, h(), fmt.Sprintf("%s: a search object configured before the last operation returned %v, one configured after it %v", vFilterStr(prepF[i]), vSetStr(r1), vSetStr(r2)))
+			}
+		}
+	}()
 	switch op.K {
 	case "Add":
-		s.nAdd++
+		if s.reuse == 0 {
+			s.nAdd++
+		}
 		err := s.idx.Add(*NewMetadataNodeWithID((uint32(op.A) + vIDBase), vCloneMeta(s.docs[op.B])))
 		vSpoilMeta()
 		if err != nil {
@@ -1109,6 +1171,13 @@ func init() {
 				in := &vC04Sys{c: c, cfgS: "metadata obsgap", maxDocs: 2, docs: []map[string]interface{}{vC04Docs[0], vC04Docs[1], vC04Docs[9]}}
 				vBFS(c, &vObsGapSys{inner: in}, 6)
 			}})
+			// successive versions of one id: with a numeric field, without any, with it again
+			// (other value); with one id to depth 7, with two ids to depth 5
+			sh = append(sh, vShard{Name: "meta/readd", Run: func(c *vCtx) {
+				docs := []map[string]interface{}{vC04Docs[7], vC04Docs[6], vC04Docs[9], vC04Docs[8]}
+				vBFS(c, &vC04Sys{c: c, cfgS: "metadata readd ids=1", reuse: 1, docs: docs}, 7)
+				vBFS(c, &vC04Sys{c: c, cfgS: "metadata readd ids=2", reuse: 2, docs: docs}, 5)
+			}})
 			sh = append(sh, vShard{Name: "meta/sweep", Run: func(c *vCtx) { vC04Sweep(c, maxN) }})
 			sh = append(sh, vShard{Name: "meta/lists", Run: vC04Lists})
 			sh = append(sh, vShard{Name: "meta/equivalent", Run: vC04Equivalent})
@@ -1146,6 +1215,14 @@ func init() {
 			}
 			if v.Config == "metadata keys" {
 				vC04Keys(c, 3)
+				_, ok := c.viol[v.Sig()]
+				return ok
+			}
+			if strings.HasPrefix(v.Config, "metadata readd ids=") {
+				var n int
+				fmt.Sscanf(v.Config, "metadata readd ids=%d", &n)
+				docs := []map[string]interface{}{vC04Docs[7], vC04Docs[6], vC04Docs[9], vC04Docs[8]}
+				vReplayHist(&vC04Sys{c: c, cfgS: v.Config, reuse: n, docs: docs}, v.History)
 				_, ok := c.viol[v.Sig()]
 				return ok
 			}
